@@ -128,9 +128,13 @@ Definition enter_env (e : tenv) (id kind : N) : tenv :=
   else if N.eqb kind K_OPDEF then
     mkTenv (op_type (na_op (attr id))) (te_parent e) (te_input e) (te_fdef e) (te_dir e) (te_arg e)
   else if N.eqb kind K_INLINE || N.eqb kind K_FRAGDEF then
+    (* without a type condition an inline fragment applies to the *named* type of the enclosing
+       field (fix c36820b); a fragment definition always has a condition in parsed documents *)
     let t := match na_name (attr id) with
              | Some n => resolve (TNamed n)
-             | None => te_type e end in
+             | None => if N.eqb kind K_INLINE
+                       then option_map (fun t0 => TNamed (get_named t0)) (te_type e)
+                       else te_type e end in
     mkTenv t (te_parent e) (te_input e) (te_fdef e) (te_dir e) (te_arg e)
   else if N.eqb kind K_VARDEF then
     let t := match na_type (attr id) with Some t => resolve t | None => None end in
